@@ -131,6 +131,18 @@ class Interp:
 
     def decide(self, conds):
         """Choose among exhaustive, mutually exclusive conditions; returns the chosen index."""
+        if self.pos < len(self.prefix):
+            # replaying a recorded prefix: feasibility of this choice was established when it was recorded
+            choice = self.prefix[self.pos]
+            self.trace.append((choice, [choice]))
+            self.pos += 1
+            c = conds[choice]
+            if c is not True:
+                if c is False:
+                    raise PathAbort()
+                self.pc.append(c)
+                self._add(c)
+            return choice
         feas = []
         for i, c in enumerate(conds):
             if c is True:
@@ -462,10 +474,15 @@ class Interp:
         raise PyExc("TypeError", f"'{op}' not supported between {type(a).__name__} and {type(b).__name__}")
 
 
+_QF_SEEN = set()  # ids of sub-terms already known to be quantifier-free (terms are kept alive by the path)
+
+
 def _has_quantifier(e, _seen=None):
     if not isinstance(e, z3.ExprRef):
         return False
-    seen = set() if _seen is None else _seen
+    seen = _QF_SEEN
+    if len(seen) > 2000000:
+        seen.clear()
     stack = [e]
     while stack:
         x = stack.pop()
